@@ -57,9 +57,15 @@ def vecn(draw, n, lo=-2.0, hi=2.0):
 
 @st.composite
 def unit_quat(draw):
-    kind = draw(st.sampled_from(["axis_angle", "axis_angle", "normals", "sparse", "neg_scalar", "identity"]))
+    kind = draw(st.sampled_from(["axis_angle", "axis_angle", "normals", "sparse", "neg_scalar", "identity", "planar"]))
     if kind == "identity":
-        return [1.0, 0.0, 0.0, 0.0]
+        return [draw(st.sampled_from([1.0, 1.0, -1.0])), 0.0, 0.0, 0.0]
+    if kind == "planar":
+        # rotation about a coordinate axis (two components exactly zero), any angle in (-2 pi, 2 pi)
+        ang = draw(f(-2 * math.pi, 2 * math.pi))
+        q = [math.cos(ang / 2), 0.0, 0.0, 0.0]
+        q[draw(st.integers(1, 3))] = math.sin(ang / 2)
+        return q
     if kind in ("axis_angle", "neg_scalar"):
         ax = np.array(draw(unit_vec3()))
         ang = draw(f(-math.pi, math.pi))
